@@ -124,6 +124,133 @@ func verify() {
 	out("VERIFY-DONE\n")
 }
 
+// straceOK: strace can start a tracee and kill it at a syscall entry in this sandbox (probed once).
+var straceOK bool
+
+var killSyscalls = []string{"openat", "openat", "ftruncate", "ftruncate", "pwrite64", "write", "fsync", "fdatasync", "rename", "renameat", "unlinkat", "unlink", "fallocate", "msync", "close", "mmap", "munmap", "pread64", "fstat", "newfstatat", "getdents64", "flock", "lseek"}
+
+// coreSyscalls are the calls badger's file handling is made of; the first four occurrences of each (per thread)
+// are visited systematically, the rest at random.
+var coreSyscalls = []string{"ftruncate", "openat", "mmap", "pwrite64", "fsync", "rename", "unlinkat", "close", "write", "munmap"}
+
+// sweepSyscalls: the calls that create, size, write, sync, rename or remove files. strace counts injected calls per
+// thread, so a joint counter would only ever reach the first few calls of the busiest thread; one call name at a time
+// with N = 1..3 reaches the rare, interesting ones (the first ftruncate of a new memtable or value log, the first
+// rename of a manifest, ...) wherever they run.
+var sweepSyscalls = []string{"ftruncate", "renameat", "rename", "fsync", "fdatasync", "msync", "fallocate", "unlinkat", "unlink", "pwrite64", "flock", "openat", "write"}
+
+func sweepPoint(i int) (string, int) {
+	i %= len(sweepSyscalls) * 3
+	return sweepSyscalls[i%len(sweepSyscalls)], 1 + i/len(sweepSyscalls)
+}
+
+var nDirsG = 4
+
+// freshSweep: the first start on an empty directory, killed on entry to the N-th file-system call of a thread
+// (this directory's share of the sweep points); whatever half-created files remain, the next start must open the store.
+func freshSweep(r *vlib.Run, self string, di, nDirs int, cseed int64) {
+	for pi := di; pi < len(sweepSyscalls)*3; pi += nDirs {
+		scName, n := sweepPoint(pi)
+		base, err := os.MkdirTemp("", "verif-c16-fresh-")
+		if err != nil {
+			return
+		}
+		store := filepath.Join(base, "store")
+		_ = os.MkdirAll(store, 0o755)
+		cmd := straceCmd(scName, n, self, "-mode", "child", "-dir", store, "-cycle", "0", "-cseed", strconv.FormatInt(cseed, 10))
+		cmd.SysProcAttr = &syscall.SysProcAttr{Setpgid: true}
+		var so bytes.Buffer
+		cmd.Stdout, cmd.Stderr = &so, io.Discard
+		if cmd.Start() == nil {
+			done := make(chan struct{})
+			go func() { _ = cmd.Wait(); close(done) }()
+			select {
+			case <-done:
+			case <-time.After(400 * time.Millisecond):
+			}
+			_ = syscall.Kill(-cmd.Process.Pid, syscall.SIGKILL)
+			<-done
+		}
+		opened := strings.Contains(so.String(), "OPEN ")
+		r.Count("kills", 1)
+		r.Count("kills_at_syscall_entry", 1)
+		r.Count("fresh_store_sweep_points", 1)
+		if !opened {
+			r.Count("kill_phase_during-first-open", 1)
+		}
+		r.Distinct("syscall_kill_points", fmt.Sprintf("fresh-store/%s#%d/opened=%v", scName, n, opened))
+		var es []string
+		if l, err := os.ReadDir(store); err == nil {
+			for _, e := range l {
+				if fi, _ := e.Info(); fi != nil {
+					es = append(es, fmt.Sprintf("%s:%d", e.Name(), fi.Size()))
+				}
+			}
+		}
+		idsFile := filepath.Join(base, "ids.txt")
+		_ = os.WriteFile(idsFile, nil, 0o644)
+		vc := exec.Command(self, "-mode", "verify", "-dir", store, "-cseed", strconv.FormatInt(cseed, 10), "-ids", idsFile)
+		var vout, verr bytes.Buffer
+		vc.Stdout, vc.Stderr = &vout, &verr
+		verrRun := make(chan error, 1)
+		if vc.Start() != nil {
+			_ = os.RemoveAll(base)
+			continue
+		}
+		go func() { verrRun <- vc.Wait() }()
+		select {
+		case err = <-verrRun:
+			if err != nil || !strings.Contains(vout.String(), "VERIFY-OPEN-OK") {
+				r.Violation("store-does-not-reopen-after-kill", map[string]interface{}{"kill_phase": "first start on an empty directory", "trigger": fmt.Sprintf("SIGKILL on entry to %s call #%d of a thread", scName, n),
+					"files_left_by_the_kill": es, "stdout": tail(vout.String(), 300), "stderr": tail(verr.String(), 1200)})
+			}
+		case <-time.After(120 * time.Second):
+			_ = vc.Process.Kill()
+			r.InconclusiveCase("fresh-sweep verifier watchdog fired")
+		}
+		_ = os.RemoveAll(base)
+	}
+}
+
+func pickSyscall(rng *rand.Rand) (string, int) {
+	name := killSyscalls[rng.Intn(len(killSyscalls))]
+	n := 1 + rng.Intn(6)
+	switch rng.Intn(4) {
+	case 0:
+		n = 1 + rng.Intn(2)
+	case 1:
+		n = 1 + rng.Intn(40)
+	}
+	return name, n
+}
+
+func straceCmd(name string, n int, argv ...string) *exec.Cmd {
+	args := append([]string{"-f", "-qq", "-o", "/dev/null", "-e", "trace=" + name, "-e", fmt.Sprintf("inject=%s:signal=SIGKILL:when=%d", name, n)}, argv...)
+	return exec.Command("strace", args...)
+}
+
+func probeStrace() bool {
+	c := exec.Command("strace", "-f", "-qq", "-o", "/dev/null", "-e", "trace=getpid", "-e", "inject=getpid:signal=SIGKILL:when=1", "/bin/sh", "-c", "echo $$; sleep 5")
+	done := make(chan error, 1)
+	if c.Start() != nil {
+		return false
+	}
+	go func() { done <- c.Wait() }()
+	select {
+	case <-done:
+	case <-time.After(3 * time.Second): // sh never calls getpid: no kill, but strace runs - good enough
+		_ = c.Process.Kill()
+		<-done
+	}
+	for _, sc := range killSyscalls { // every name must be known to this strace
+		if out, err := exec.Command("strace", "-qq", "-o", "/dev/null", "-e", "trace="+sc, "/bin/true").CombinedOutput(); err != nil {
+			_ = out
+			return false
+		}
+	}
+	return true
+}
+
 type idKey struct{ c, seq int }
 type idState struct {
 	begun   map[int]bool // versions with BEGIN
@@ -143,7 +270,10 @@ func main() {
 	}
 	r := vlib.Start("C16", "fault_enumeration")
 	self, _ := os.Executable()
+	straceOK = probeStrace()
+	r.Extra("strace_syscall_kill_injection_available", straceOK)
 	nDirs := r.Pick(4, 8)
+	nDirsG = nDirs
 	cycles := r.Pick(40, 150)
 	var wg sync.WaitGroup
 	for di := 0; di < nDirs; di++ {
@@ -160,7 +290,7 @@ func main() {
 	if r.GetCount("acked_checked") == 0 {
 		r.Inconclusive("no acknowledged write was ever checked")
 	}
-	r.Finish("evaluations", "kill_points", "writer children store unique (cycle,seq,version) VAAs (100 B..256 KiB, overwrites of earlier ids) and acknowledge each on a pipe; SIGKILL at PRNG-chosen points (after k-th ACK + delay, right after a BEGIN, during open, during the verifier's reopen); a fresh verifier process reopens the directory after every kill and looks up every id of all cycles; distinct non-trivial = distinct (phase, acks-before-kill) kill points", 10)
+	r.Finish("evaluations", "kill_points", "writer children store unique (cycle,seq,version) VAAs (100 B..256 KiB, overwrites of earlier ids) and acknowledge each on a pipe; SIGKILL at PRNG-chosen points (after k-th ACK + delay, right after a BEGIN, during open, during the verifier's reopen, and - through strace's syscall injection - on entry to the N-th openat/ftruncate/pwrite64/write/fsync/rename/unlink/mmap/... call of a thread, in writers and in recovering verifiers); a fresh verifier process reopens the directory after every kill and looks up every id of all cycles; distinct non-trivial = distinct (phase, acks-before-kill) kill points", 10)
 }
 
 func runDir(r *vlib.Run, self string, di, cycles int) {
@@ -177,9 +307,25 @@ func runDir(r *vlib.Run, self string, di, cycles int) {
 	ids := map[idKey]*idState{}
 	var order []idKey
 	flushSeen := 0
+	atSys := 0
+	if straceOK {
+		freshSweep(r, self, di, nDirsG, cseed)
+	}
+	sweepIdx := 0
 	for c := 0; c < cycles; c++ {
 		// ---- choose the kill trigger
-		trig := []string{"after-ack", "after-ack", "after-ack", "after-begin", "after-begin", "during-open"}[rng.Intn(6)]
+		trig := []string{"after-ack", "after-ack", "after-ack", "after-begin", "after-begin", "during-open", "at-syscall", "at-syscall", "at-syscall", "at-syscall"}[rng.Intn(10)]
+		openSweepN := 0
+		if straceOK && c%8 == 4 {
+			// crash-point sweep over the reopening of a used store: die on entry to the N-th file-system call
+			// of one kind (sweepPoint) of a thread; the points are walked across this directory's cycles and the directories
+			trig = "at-syscall"
+			openSweepN = 1 + di + nDirsG*sweepIdx // index into the sweep points, 1-based
+			sweepIdx++
+		}
+		if trig == "at-syscall" && !straceOK {
+			trig = "during-open"
+		}
 		k := rng.Intn(120)
 		if rng.Intn(4) == 0 {
 			k = rng.Intn(8)
@@ -189,6 +335,25 @@ func runDir(r *vlib.Run, self string, di, cycles int) {
 			delay = time.Duration(rng.Intn(40000)) * time.Microsecond
 		}
 		cmd := exec.Command(self, "-mode", "child", "-dir", store, "-cycle", strconv.Itoa(c), "-cseed", strconv.FormatInt(cseed, 10))
+		scName, scN := "", 0
+		systematic := false // crash images of the systematic schedule are always examined by an undisturbed verifier
+		if trig == "at-syscall" {
+			// systematic crash points: strace delivers SIGKILL on entry to the N-th call (per thread) of one
+			// file-system syscall, i.e. between two steps of badger's file handling that a timer would hardly hit
+			scName, scN = pickSyscall(rng)
+			systematic = atSys%2 == 0 || openSweepN > 0
+			if systematic { // every other one walks the systematic schedule: core file syscalls x N in 1..4
+				i := (di*13 + atSys/2) % (len(coreSyscalls) * 4)
+				scName, scN = coreSyscalls[i%len(coreSyscalls)], 1+i/len(coreSyscalls)
+			}
+			atSys++
+			if openSweepN > 0 {
+				scName, scN = sweepPoint(openSweepN - 1)
+				r.Count("reopen_sweep_points", 1)
+			}
+			cmd = straceCmd(scName, scN, self, "-mode", "child", "-dir", store, "-cycle", strconv.Itoa(c), "-cseed", strconv.FormatInt(cseed, 10))
+		}
+		cmd.SysProcAttr = &syscall.SysProcAttr{Setpgid: true}
 		stdout, _ := cmd.StdoutPipe()
 		var stderr bytes.Buffer
 		cmd.Stderr = &stderr
@@ -200,12 +365,16 @@ func runDir(r *vlib.Run, self string, di, cycles int) {
 		var killOnce sync.Once
 		kill := func() {
 			killOnce.Do(func() {
+				_ = syscall.Kill(-cmd.Process.Pid, syscall.SIGKILL) // the whole group: strace and its tracee
 				_ = cmd.Process.Signal(syscall.SIGKILL)
 				close(killed)
 			})
 		}
 		if trig == "during-open" {
 			go func() { time.Sleep(delay); kill() }()
+		}
+		if trig == "at-syscall" { // the N-th call may never come: bounded run
+			go func() { time.Sleep(time.Duration(300+rng.Intn(500)) * time.Millisecond); kill() }()
 		}
 		watchdog := time.AfterFunc(120*time.Second, func() { r.InconclusiveCase("child watchdog fired"); kill() })
 		acks, begins := 0, 0
@@ -261,6 +430,9 @@ func runDir(r *vlib.Run, self string, di, cycles int) {
 				r.Count("store_errors", 1)
 			}
 		}
+		if trig == "at-syscall" {
+			kill() // stdout closed: the tracee is gone (or the bound fired); make sure nothing of the group survives
+		}
 		<-killed
 		_ = cmd.Wait()
 		watchdog.Stop()
@@ -275,7 +447,23 @@ func runDir(r *vlib.Run, self string, di, cycles int) {
 		r.Count("kills", 1)
 		r.Count("kill_phase_"+phase, 1)
 		r.Distinct("kill_points", fmt.Sprintf("%s/%d", phase, acks))
+		if trig == "at-syscall" {
+			r.Count("kills_at_syscall_entry", 1)
+			r.Distinct("syscall_kill_points", fmt.Sprintf("%s#%d/%s", scName, scN, phase))
+			trig = fmt.Sprintf("at-syscall:%s#%d", scName, scN)
+		}
 
+		if os.Getenv("C16_DEBUG") != "" {
+			es, _ := os.ReadDir(store)
+			var l []string
+			for _, e := range es {
+				fi, _ := e.Info()
+				if fi != nil {
+					l = append(l, fmt.Sprintf("%s:%d", e.Name(), fi.Size()))
+				}
+			}
+			fmt.Fprintf(os.Stderr, "DEBUG dir=%d cycle=%d trig=%s phase=%s acks=%d files=%v\n", di, c, trig, phase, acks, l)
+		}
 		// ---- verifier (sometimes killed during its own reopen first)
 		idsFile := filepath.Join(base, "ids.txt")
 		var sb strings.Builder
@@ -283,13 +471,28 @@ func runDir(r *vlib.Run, self string, di, cycles int) {
 			fmt.Fprintf(&sb, "%d %d\n", key.c, key.seq)
 		}
 		_ = os.WriteFile(idsFile, []byte(sb.String()), 0o644)
-		if rng.Intn(4) == 0 {
+		if rng.Intn(4) == 0 && !systematic {
 			v0 := exec.Command(self, "-mode", "verify", "-dir", store, "-cseed", strconv.FormatInt(cseed, 10), "-ids", idsFile)
+			wait := time.Duration(rng.Intn(30000)) * time.Microsecond
+			if straceOK && rng.Intn(2) == 0 { // the recovery itself dies at a syscall boundary
+				n, k := pickSyscall(rng)
+				v0 = straceCmd(n, k, self, "-mode", "verify", "-dir", store, "-cseed", strconv.FormatInt(cseed, 10), "-ids", idsFile)
+				wait = 800 * time.Millisecond
+				r.Count("kills_at_syscall_entry", 1)
+				r.Distinct("syscall_kill_points", fmt.Sprintf("%s#%d/verifier-reopen", n, k))
+			}
+			v0.SysProcAttr = &syscall.SysProcAttr{Setpgid: true}
 			v0.Stdout, v0.Stderr = io.Discard, io.Discard
 			if v0.Start() == nil {
-				time.Sleep(time.Duration(rng.Intn(30000)) * time.Microsecond)
+				done := make(chan struct{})
+				go func() { _ = v0.Wait(); close(done) }()
+				select {
+				case <-done:
+				case <-time.After(wait):
+				}
+				_ = syscall.Kill(-v0.Process.Pid, syscall.SIGKILL)
 				_ = v0.Process.Signal(syscall.SIGKILL)
-				_ = v0.Wait()
+				<-done
 				r.Count("kills", 1)
 				r.Count("kill_phase_verifier-reopen", 1)
 				r.Distinct("kill_points", fmt.Sprintf("verifier-reopen/%d", c%7))
@@ -312,6 +515,9 @@ func runDir(r *vlib.Run, self string, di, cycles int) {
 			return
 		}
 		vs := vout.String()
+		if os.Getenv("C16_DEBUG") != "" {
+			fmt.Fprintf(os.Stderr, "DEBUG dir=%d cycle=%d verifier err=%v out=%q\n", di, c, err, tail(vs, 120))
+		}
 		if err != nil || !strings.Contains(vs, "VERIFY-OPEN-OK") || !strings.Contains(vs, "VERIFY-DONE") {
 			cls := "store-does-not-reopen-after-kill"
 			if strings.Contains(verr.String(), "panic:") {
